@@ -9,7 +9,7 @@ import networkx as nx
 from ..cfg import ENTRY, EXIT, RAISE, reaching_defs
 from ..common import calls_named, dotted, kw, loc, norm, stmt_of
 from ..model import AnalysisError, ClassInfo, FunctionInfo, own_nodes
-from .util import anchor_func, assigned_name, buffer_fill, build_cfg, facts, is_zero_expr, switch_assumptions
+from .util import anchor_func, assigned_name, buffer_fill, build_cfg, facts, is_zero_expr, projection_aliases, sem, switch_assumptions
 from . import opcontract
 
 COLLECT = "mygrad._utils.collect_all_tensors_and_clear_grads"
@@ -41,7 +41,7 @@ def r01_1(run):
         loop = getattr(par, "_parent", None)
         while loop is not None and not isinstance(loop, ast.For):
             loop = getattr(loop, "_parent", None)
-        ok = loop is not None and norm(loop.iter) in (f"{t}.creator.variables", f"{t}._creator.variables") \
+        ok = loop is not None and sem(loop.iter, projection_aliases(fi.node)) in (f"{t}.creator.variables", f"{t}._creator.variables") \
             and isinstance(loop.target, ast.Name) and c.args and isinstance(c.args[0], ast.Name) \
             and c.args[0].id == loop.target.id
         passed = {norm(a) for a in c.args[1:]} | {norm(k.value) for k in c.keywords}
@@ -190,6 +190,12 @@ def r01_3_4(run):
                        "X = X + ... form" if ok else "gradient contributions are not summed")
             else:
                 ok = any(cfg.edge_dominates(t, "true", ns) for t in none_tests)
+                if not ok:
+                    # semantic form: with a gradient already present the plain store is unreachable (early `+= ; continue`, inverted test, ...)
+                    cfgp = build_cfg(run, fi, {f"{var}._grad is None": False, f"{var}._grad is not None": True})
+                    npl = cfgp.node_for(s)
+                    ok = (npl is None or not cfgp.reachable(npl)) and any(
+                        cfg.label.get(n_) == "If" and norm(st_) in (f"{var}._grad is None", f"{var}._grad is not None") for n_, st_ in cfg.stmt.items())
                 run.ob("R01.3", loc(fi, s), fi.short, f"plain store {norm(s)[:50]} only when no gradient is present", ok,
                        f"edge-dominated by the true edge of `{var}._grad is None`" if ok else
                        "a plain store overwrites contributions from other consumers (fan-out loses gradient)")
